@@ -1,0 +1,12 @@
+//go:build verif
+
+// Contracts for the deductive verifier in /verif (comment-only: adds no declarations).
+package aws_identity_cert
+
+//@ use time errors fmt
+
+// ---- C03: cloud-role certificates live 24 hours -------------------------------------------------------------
+// The template handed to the daemon's signing callback starts now and ends 24 hours later (the callback's own
+// contract, in cmd/keymasterd, says that it signs the window it is given).
+//@ func makeCertificateTemplate
+//@   ensures ret1 == nil ==> ret0 != nil && timeNanos(ret0.NotBefore) == nowNanos() && timeNanos(ret0.NotAfter) == nowNanos() + 86400000000000 && !ret0.IsCA   #C03.cloud-role-template-24h @C03
